@@ -181,7 +181,7 @@ def run(ctx, chk):
                     chk.violation("C04.no-config-store",
                                   f"{K}: store into configuration column {fam} of {e['addr']}",
                                   f"value {e['value']}", e["loc"])
-    chk.floor("C04.status-true", n_status, 5, "status stores reachable from a step")
+    chk.floor("C04.status-true", n_status, 2, "status stores reachable from a step")
     chk.ob("C04.no-config-store", "no store into a configuration column in any class's call tree",
            n_config == 0, f"{n_config} store(s)", "nasim/envs")
     # positive control of the classifier: a synthetic store into the value column is recognised
